@@ -506,12 +506,12 @@ def annotate(
                     ).format(path=path, new_path=new_path)
                 )
             path = Path(new_path)
-            if path.is_symlink():
-                click.echo(_SYMLINK_ERROR.format(path=path))
-                result += 1
-                continue
-            created_license_file = not path.exists()
             try:
+                if path.is_symlink():
+                    click.echo(_SYMLINK_ERROR.format(path=path))
+                    result += 1
+                    continue
+                created_license_file = not path.exists()
                 path.touch()
             except OSError as error:
                 click.echo(
